@@ -240,6 +240,8 @@ def rule_root_relative_fs(ctx: Ctx, rule: str) -> None:
                        'argument joined onto the root, or guarded by an absolute-path test', how,
                        witness="glob('*', root_dir='sub') / globmatch('f', '*', REALPATH, root_dir='sub') must look in sub/, not in the cwd")
     ctx.floor(rule, 'file-system call sites', n, 11)
+    from . import ginit
+    ginit.rule_derived_attrs(ctx, rule, which={'root_dir'})
     pb = repo.func('glob', 'Glob._prepend_base')
     ev = SymEval(repo, inline=False, call_models={'os.path.join': lambda fr, n, a, k: ('join',) + tuple(map(repr, a))})
     paths = ev.tabulate(pb, {'path': Opaque('path')}, Obj(('glob', 'Glob'), {'is_abs_pattern': Opaque('abs'), 'root_dir': Opaque('root')}))
@@ -629,6 +631,8 @@ def store_rows(repo: Any) -> list:
 def rule_magic_classification(ctx: Ctx, rule: str) -> None:
     ctx.text(rule, "_GlobSplit.is_magic uses the symbol table returned by _get_magic_symbols with the split object's own flags "
                    '(minus NEGATE); a part is compiled iff it is magic, with the same flags')
+    from . import seqrules
+    seqrules.rule_split_points(ctx, rule)
     repo = ctx.repo
     gi = repo.func('glob', '_GlobSplit.__init__')
     ms = [s for s in walk_no_nested(gi.node) if isinstance(s, (ast.Assign, ast.AnnAssign)) and
@@ -770,6 +774,22 @@ def rule_specials_and_start(ctx: Ctx, rule: str) -> None:
             v = apps[0][2][0]
             if not (isinstance(v, tuple) and len(v) == 2 and _tag(v[0]).endswith(')[0]') and _tag(v[1]).endswith(')[1]')):
                 bad_k.append(f'keeps {_tag(v)[:60]}')
+    # `.` / `..` are recognised by whole-name equality
+    from .common import as_bool
+    for meth, want_atoms in (('_is_parent', [{'name == self.specials[1]'}]), ('_is_this', [{'name == self.specials[0]', 'name == self.sep'}])):
+        fm_ = repo.func('glob', f'Glob.{meth}')
+        _e, ps_ = tabulate_method(repo, 'glob', f'Glob.{meth}', {}, [Opaque('name')], inline=False)
+        atoms = set()
+        okm = True
+        for p in ps_:
+            atoms |= set(p.decisions)
+            r = as_bool(p, p.ret)
+            okm = okm and isinstance(r, bool) and r == any(p.decisions.values())
+        if len(ps_) == 1 and isinstance(ps_[0].ret, Opaque):
+            atoms, okm = {ps_[0].ret.tag}, True
+        okm = okm and atoms in want_atoms
+        ctx.ob(rule, f'glob:Glob.{meth}/whole-name', okm, repo.loc('glob', fm_.node), ' or '.join(sorted(want_atoms[0])), str(sorted(atoms)),
+               witness="glob('..cache/') must look `..cache` up like any other name, not treat it as the parent directory")
     ctx.ob(rule, 'glob:Glob._get_starting_paths/guard', not bad_g and n_scan >= 2, repo.loc('glob', sp.node),
            'absolute pattern, `.` or `..`: [(curdir, True)] without scanning; otherwise scan the root with _iter(None, dir_only, False)',
            'as expected' if not bad_g else bad_g[0], witness="glob('../x') must follow `..` as written")
